@@ -229,7 +229,8 @@ func classifyC06(r *rig, res *scnResult, fs []nodeFinal, best *nodeFinal, t *tre
 	var zero [32]byte
 	if s.Engine == "legacy" {
 		st := r.sm.VerifSnapshot()
-		// F4a: checkpoints disabled => headersFirstMode is never set => the answer to the manager's own getheaders
+		// F4a (repaired in /repo 8573612; kept so that a regression gets its own, now unlisted, signature):
+		// checkpoints disabled => headersFirstMode is never set => the answer to the manager's own getheaders
 		// is "unrequested" and the peer is disconnected.
 		if s.CpOff && !st.HeadersFirst {
 			for _, f := range fs {
@@ -239,7 +240,7 @@ func classifyC06(r *rig, res *scnResult, fs []nodeFinal, best *nodeFinal, t *tre
 				}
 			}
 		}
-		// F4b: the peer that holds the best chain announced a block by inv after its last request
+		// F4b (repaired in /repo f49151a; kept for the same reason): the peer that holds the best chain announced a block by inv after its last request
 		// getheaders(locator(tip), 0) had been answered; the follow-up request is identical and is dropped by
 		// PushGetHeadersMsg's duplicate filter, so nothing was requested after the inv.
 		for _, f := range fs {
@@ -275,7 +276,7 @@ func classifyC06(r *rig, res *scnResult, fs []nodeFinal, best *nodeFinal, t *tre
 		}
 	}
 	if s.Engine == "legacy" {
-		// F4d: handleCheckSyncPeer compares topBlock() != tip height; once the service is AHEAD of the height its sync
+		// F4d (repaired in /repo 0b0b1e1; kept for the same reason): handleCheckSyncPeer compared topBlock() != tip height; once the service is AHEAD of the height its sync
 		// peer advertised in its version message (blocks announced since), the three-minute watchdog takes that for
 		// "behind", disconnects the up-to-date sync peer, and later announcements of that peer are lost.
 		for _, e := range r.events {
@@ -752,6 +753,25 @@ func runC06(c *Ctx) error {
 		return nil
 	}
 	replayKnownC06(c, "C06", oracleC06)
+	// corpus: the witnesses of the repaired defects run FIRST, as ordinary cases (a fixed entry suppresses nothing: if a
+	// defect returns, its oracle signature is unlisted and the run ends in VIOLATION; the model would disagree as well)
+	corpusErrs := 0
+	for _, cs := range c06Corpus {
+		s, err := parseScn(cs.Ops)
+		if err != nil {
+			return fmt.Errorf("corpus %s: %w", cs.Name, err)
+		}
+		res := runScenario("corpus-"+cs.Name, s, oracleC06)
+		if res.Err != nil {
+			res = runScenario("corpus-"+cs.Name+"-retry", s, oracleC06)
+		}
+		reportScn(c, res, &corpusErrs)
+		l.check(c, res)
+		c.R.Count("kind:corpus", 1)
+	}
+	if corpusErrs > 0 {
+		c.R.Fail(lib.Failure{Case: "corpus", What: "a corpus scenario could not be evaluated (rig error, see notes)", Signature: "c06-other:rig-error"})
+	}
 	rng := lib.Rng(c.Seed, "c06-scenarios")
 	o := genOpts{MaxLen: 40}
 	budget := 60 * time.Second
@@ -839,6 +859,21 @@ func runC06(c *Ctx) error {
 		c.R.Fail(lib.Failure{Case: "rig", What: fmt.Sprintf("%d scenarios could not be evaluated (rig errors, see notes)", rigErrs), Signature: "c06-other:rig-error"})
 	}
 	return nil
+}
+
+// c06Corpus: witnesses of defects this check found and /repo has repaired (KNOWN_FINDINGS `fixed` entries).
+var c06Corpus = []struct {
+	Name string
+	Ops  []string
+}{
+	{"F4a-8573612", []string{"c06 engine=legacy cpoff=1 cps=2 init= forbid= sched=serial seed=1 salt=1", "tree parents=0~4",
+		"node path=0..4 pos=5 cap=2000 dir=out honest=1", "step connect 0", "step run"}},
+	{"F4b-f49151a", []string{"c06 engine=legacy cpoff=0 cps=2 init= forbid= sched=serial seed=1 salt=1", "tree parents=0~6",
+		"node path=0..6 pos=5 cap=2000 dir=out honest=1", "step connect 0", "step run", "step announce 0 inv 1", "step run",
+		"step announce 0 inv 1", "step run"}},
+	{"F4d-0b0b1e1", []string{"c06 engine=legacy cpoff=0 cps=2 init= forbid= sched=serial seed=1 salt=4", "tree parents=0~6",
+		"node path=0..6 pos=5 cap=2000 dir=out honest=1", "step connect 0", "step announce 0 inv 1", "step run", "step tick 200",
+		"step run", "step announce 0 inv 1", "step run"}},
 }
 
 // replayKnownC06 replays the witnesses of the property's known findings.
